@@ -385,9 +385,87 @@ def cases(tier: str, rng: random.Random):  # noqa: ANN201
                "falsy": rng.random() < 0.4, "deep": rng.random() < 0.4, "cancelling": rng.random() < 0.25, "gen_spawn": rng.random() < 0.3, "place": rng.choice(["same", "sibling", "outside", "task"]), "mode": rng.choice(["full", "full", f"break@{rng.randint(1, total)}", f"aclose@{rng.randint(1, total)}"]), "via": rng.choice(["plain", "ctx"])}
 
 
+def run_streams_of_a_left_scope(R: Recorder, case: dict[str, Any]) -> None:
+    """scope S is left while a stream A created in it has not been consumed yet (so S has not completed); a plain task started inside S
+    - it keeps S's context - then creates a second stream B and consumes both, in either order, fully or closing them early. Each stream
+    yields its generator's items and its normal end, the generators see S's state, and S completes once, after both streams are done."""
+    from haiway import ctx
+
+    events: list[Any] = []
+    errors: list[str] = []
+    R1 = family.R1
+
+    async def numbers(tag: str, n: int) -> Any:
+        for i in range(n):
+            events.append(("produced", tag, i, ctx.state(R1).v))
+            yield (tag, i)
+
+    def done(metrics: Any) -> None:
+        events.append(("completion", "S"))
+
+    async def consume(tag: str, stream: Any, mode: str, n: int) -> None:
+        got: list[Any] = []
+        terminal: Any = "end"
+        try:
+            if mode == "full":
+                async for item in stream:
+                    got.append(item)
+            else:
+                async with aclosing(stream) as it:
+                    async for item in it:
+                        got.append(item)
+                        break
+        except BaseException as exc:  # noqa: BLE001
+            terminal = exc
+        events.append(("stream-finished", tag))
+        want = [(tag, i) for i in range(n)][: n if mode == "full" else 1]
+        R.monitor("items", got == want and terminal == "end", where={"kind": "items-or-end-differ", "place": "task-of-a-left-scope", "stream": tag, "mode": mode},
+                  detail=f"stream {tag} created {'inside S' if tag == 'A' else 'in S context after S was left'}: received {got!r} then {terminal!r}; expected {want!r} then the normal end", case=case)
+
+    async def main(loop: Any) -> None:
+        left = asyncio.Event()
+
+        async def worker(first: Any) -> None:
+            await left.wait()
+            second = ctx.stream(numbers, "B", case["nb"])
+            events.append(("stream-created", "B"))
+            for tag in case["order"]:
+                await consume(tag, first if tag == "A" else second, case["mode"][tag], case["na"] if tag == "A" else case["nb"])
+
+        async with ctx.scope("S", family.make("R1", 41), completion=done):
+            task = asyncio.create_task(worker(ctx.stream(numbers, "A", case["na"])))
+        events.append(("exit", "S"))
+        left.set()
+        try:
+            await task
+        except BaseException as exc:  # noqa: BLE001
+            errors.append(repr(exc))
+        for _ in range(6):
+            await asyncio.sleep(0)
+
+    status, value, loop = run_virtual(main, max_iterations=5000)
+    R.case(case, nontrivial=True)
+    R.count("streams_created_in_the_context_of_a_left_scope")
+    w0 = {"place": "task-of-a-left-scope"}
+    if status != "ok" or errors:
+        R.monitor("items", False, where={**w0, "kind": "run-failed"}, detail=f"run ended {status} {value!r} {errors}; events={events}", case=case)
+        return
+    seen = [e[3] for e in events if e[0] == "produced"]
+    R.monitor("body-state", all(v == 41 for v in seen), where={**w0, "kind": "other"}, detail=f"generators saw R1 uids {seen} (creation scope supplies 41)", case=case)
+    comps = [i for i, e in enumerate(events) if e == ("completion", "S")]
+    fins = [i for i, e in enumerate(events) if e[0] == "stream-finished"]
+    ok = len(comps) == 1 and len(fins) == 2 and comps[0] > max(fins)
+    R.monitor("completion", ok, where={**w0, "kind": "completion-count-or-order", "scope": "S"}, detail=f"S completed {len(comps)} time(s) at {comps}, streams finished at {fins}; events={events}", case=case)
+    R.monitor("loop-clean", not loop.errors, where={**w0, "kind": "loop-exception-handler-called"}, detail=f"{loop.errors}", case=case)
+
+
 def run(R: Recorder, tier: str, seed: int, shard: int, nshards: int) -> None:
     if shard == 0:
         argnames.check_ctx_entry_points(R, "items", "stream")
+        for order, ma, mb, na, nb in itertools.product(("AB", "BA"), ("full", "close"), ("full", "close"), (1, 3), (0, 2)):
+            if mb == "close" and nb == 0:
+                continue
+            run_streams_of_a_left_scope(R, {"left_scope": True, "order": order, "mode": {"A": ma, "B": mb}, "na": na, "nb": nb})
     R.flags["exhaustive_core"] = "4 places x 0-3 items x end/raise x full/break@k/aclose@k x nested-yield positions"
     rng = random.Random(f"C11/{seed}")
     for i, case in enumerate(cases(tier, rng)):
@@ -398,5 +476,8 @@ def run(R: Recorder, tier: str, seed: int, shard: int, nshards: int) -> None:
 def replay(R: Recorder, case: dict[str, Any]) -> None:
     if "ctx_entry" in case:
         argnames.check_ctx_entry_points(R, "items", "stream")
+        return
+    if case.get("left_scope"):
+        run_streams_of_a_left_scope(R, case)
         return
     run_case(R, case, verbose=True)
